@@ -42,7 +42,12 @@ type Stats struct {
 	Caps        map[string]bool  // caps hit => not exhaustive
 	M           map[string]int64 // named maxima (depth reached, bound completed)
 	Samples     []any            // a few written-out traces / inputs of this run
+	deadline    time.Time
 }
+
+// Expired tells a long-running case (a state-graph search) that the wall-clock budget of the run is used up; the
+// case should stop, record a cap and return what it has.
+func (s *Stats) Expired() bool { return !s.deadline.IsZero() && time.Now().After(s.deadline) }
 
 // Sample keeps a written-out trace of this run for the evidence file (a few per worker).
 func (s *Stats) Sample(v any) {
@@ -310,6 +315,7 @@ func Main[C any](s Spec[C], args []string) int {
 		go func(w int) {
 			defer wg.Done()
 			st := newStats()
+			st.deadline = deadline.Add(30 * time.Second)
 			defer func() {
 				mu.Lock()
 				total.merge(st)
